@@ -34,7 +34,33 @@ def run(ctx):
         return intern.setdefault(s, len(intern) + 1)
     exprs, owners, details = [], [], {}
     nprog = ndis = 0
+    # both build types must agree on acceptance (corpus incl. programs whose rule names collide with implicit rule modules)
+    import glob
+    import os
+    from common import CACHE, VERIF, sh
+    bd = os.path.join(CACHE, "target", "release", "build-driver")
+    for f in sorted(glob.glob(os.path.join(VERIF, "corpus", "C13", "*.eql"))):
+        wd = os.path.join(CACHE, "scratch", "c19acc-%d" % os.getpid())
+        rcs = {}
+        for mode in ("module", "component"):
+            shutil.rmtree(wd, ignore_errors=True)
+            for sub in ("in", "out", "comp"):
+                os.makedirs(os.path.join(wd, sub))
+            shutil.copy(f, os.path.join(wd, "in", "thy.eql"))
+            args = [bd, mode, os.path.join(wd, "in"), os.path.join(wd, "out")]
+            if mode == "component":
+                args += [os.path.join(wd, "comp"), os.path.join(VERIF, "harness", "build-driver", "fake_rustc.sh"), "x"]
+            rcs[mode], _ = sh(args, timeout=300)
+        shutil.rmtree(wd, ignore_errors=True)
+        ctx.obligation("acceptance agrees:%s" % os.path.basename(f), rcs["module"] == rcs["component"], str(rcs))
+        if rcs["module"] != rcs["component"]:
+            ctx.violation({"kind": "program", "program": open(f).read(), "exit_codes": rcs},
+                          "the module build and the component build disagree on whether %s is accepted" % os.path.basename(f))
     for res in results:
+        if res["module"][0] != res["component"][0] and "rejected" not in (res["module"][0], res["component"][0]):
+            ctx.violation({"kind": "program", "program": res["text"], "module": res["module"], "component": res["component"]},
+                          "one build type compiles, links and runs the program, the other does not (module: %s, component: %s)"
+                          % (res["module"][0], res["component"][0]))
         if res["module"][0] != "ok" or res["component"][0] != "ok":
             continue
         nprog += 1
